@@ -174,6 +174,10 @@ def solved_problem_roundtrip(ctx):
 def run(ctx):
     if ctx.tape.flag(0.12, "solved_problem_roundtrip"):
         return solved_problem_roundtrip(ctx)
+    if ctx.tape.flag(0.08, "cache_reload"):
+        from ._cache_protocol import api_history
+
+        return api_history(ctx, prop="C11")
     from gemseo.algos.database import Database
     from gemseo.algos.design_space import DesignSpace
     from gemseo.algos.optimization_problem import OptimizationProblem
